@@ -371,7 +371,7 @@ CHECKS = {
                  "implies one being voted on. Non-trivial there = >=3 status changes."),
         "assumptions": ["audit admins and node binding are not generated (roles: governance admins; nodes: non-validating)",
                         "several operations in one block (votes concluding a proposal and restoring a locked one) are accepted as a path of up to three declared transitions"],
-        "quick": [T("TestC16", 8, 40, steps=35), T("TestC16Gov", 8, 40, steps=35)],
+        "quick": [T("TestC16", 16, 50, steps=35), T("TestC16Gov", 8, 40, steps=35)],
         "thorough": [T("TestC16", 16, 1500, steps=50, timeout=3000), T("TestC16Gov", 16, 1500, steps=50, timeout=3000)],
     },
 }
